@@ -100,6 +100,14 @@ func main() {
 					if v, ok := isPkgVar(x.X); ok {
 						sites = append(sites, site{v, fset.Position(x.Pos()).String(), "incdec"})
 					}
+				case *ast.CallExpr:
+					if sel, ok := x.Fun.(*ast.SelectorExpr); ok {
+						if id, ok := sel.X.(*ast.Ident); ok {
+							if v, ok := isPkgVar(id); ok {
+								sites = append(sites, site{v, fset.Position(x.Pos()).String(), "method-call " + sel.Sel.Name})
+							}
+						}
+					}
 				case *ast.UnaryExpr:
 					if x.Op == token.AND {
 						if v, ok := isPkgVar(x.X); ok {
